@@ -524,7 +524,7 @@ NAMES = {
     "lf_in": ["X\nApp", "X-App\nX-Injected"],
     "nul_in": ["X\x00App"],
     "empty": [""],
-    "obs_in": ["X\xe9", "\xffX"],
+    "obs_in": ["X\xe9", "\xffX", "X-Stra\xdfe", "\xdf", "X-\xb5", "X-\xaa"],
     "paren": ["X(App)", "X@App", "X,App", "X/App", "[X]", "X=App", "X\"App\""],
 }
 VALUES = {
@@ -578,12 +578,19 @@ def c09_exchange(case, rng, kind="sync"):
     st2, hs2 = concrete_call(case["c2"], rng, len(body)) if case["exc"] != "none" else (None, None)
     ev = []
     holder = {}
+    late_append = rng.random() < 0.25
 
     def app(environ, start_response):
         sock = holder["sock"]
         try:
-            write = start_response(st1, list(hs1))
+            mine = list(hs1)
+            write = start_response(st1, mine)
             ev.append({"e": "call", "who": 1, "raised": False, "sent": len(sock.wire)})
+            if late_append:
+                # the application goes on using ITS list after the call (a tracing middleware appends to it): what was
+                # accepted is what was passed when start_response() was called
+                mine.append(("X-Late", "t1\r\nSet-Cookie: sid=late"))
+                mine.append(("X Late", "plain"))
         except BaseException:
             ev.append({"e": "call", "who": 1, "raised": True, "sent": len(sock.wire)})
             raise
